@@ -188,6 +188,31 @@ impl Check for C22Check {
                 };
             }
         }
+        // the answer states themselves (after the reification goal rebuilt the store), read by
+        // driving the Solver directly
+        let st = crate::statedrv::run_states(p, &case.cfg, 100_000, None);
+        facts.stats.push(st.stats.clone());
+        if let End::Panic(pi) = &st.end {
+            return CaseResult {
+                verdict: Verdict::Violation { class: format!("panic@{}", pi.location), detail: pi.message.clone() },
+                facts,
+            };
+        }
+        for snap in st.snaps.iter() {
+            facts.answers_compared += 1;
+            if snap.with_calls as i64 - snap.take_calls as i64 != snap.stored as i64 {
+                return CaseResult {
+                    verdict: Verdict::Violation {
+                        class: "hook-count-mismatch".into(),
+                        detail: format!(
+                            "in an answer state (after reification): with_constraint calls {} - take_constraint calls {} != {} stored constraints",
+                            snap.with_calls, snap.take_calls, snap.stored
+                        ),
+                    },
+                    facts,
+                };
+            }
+        }
         if case.oracle == "hooks-tree" {
             let r1 = R1::new(p, refint::Opts { fuel: 30_000, ..Default::default() }).run();
             if r1.cut {
